@@ -266,3 +266,4 @@ def run(ctx):
     r5_drop(ctx)
     r6_complete_messages(ctx)
     C06.r3_notify(ctx, 'C07.R7')
+    C06.r5_ping_atomics(ctx, 'C07.R8')
